@@ -255,6 +255,21 @@ def gen_split(ctx):
     return cases
 
 
+def gen_split_chain(ctx):
+    """parts that reach their common edge along DIFFERENT slicing routes (top = parent[a:k], bottom = parent[a:b][k-a:], and
+    the mirror image) on areas whose pixel size is an arbitrary double: the shared edge agrees only up to rounding"""
+    r = ctx.rng
+    cases = []
+    for i in range(ctx.n(40, 400)):
+        h, w = r.randint(4, 60), r.randint(1, 12)
+        area = rand_area(r, w, h, nice=False)
+        a = r.randint(0, h - 3)
+        b = r.randint(a + 2, h)
+        for k in r.sample(range(a + 1, b), min(b - a - 1, 5)):
+            cases.append({"area": area, "k": k, "window": [a, b], "route": ("chain_bottom", "chain_top", "direct")[(i + k) % 3 if i % 5 == 0 else (i + k) % 2]})
+    return cases
+
+
 def gen_concat(ctx):
     """arbitrary pairs: contiguous either way, gaps, isclose boundary, x mismatch, crs / width mismatch"""
     r = ctx.rng
@@ -400,6 +415,8 @@ def run(ctx):
                 "length n <= 4 (quick) / 5 (thorough), all chains of two such slices for n <= 2 / 4 (sampled above), sampled "
                 "chains of three; random medium (<= 40), large (<= 1200) and huge (<= 40000) shapes with chains of 1-3 random "
                 "slices (None / negative / out-of-range bounds); every split row of random areas, both member orders and the "
+                "stacked form, and windows parent[a:b] of areas with arbitrary-double pixel sizes split at sampled rows with the two "
+                "parts cut along different slicing routes (one from the parent, one from the window; shared edge equal up to rounding); "
                 "stacked form; stacks of 2-4 members (contiguous, gaps, permuted, CRS / width mismatch, height 0, one-ulp x "
                 "mismatch) with all row windows as data_slice; legacy and future swaths sliced (same enumeration) and "
                 "concatenated; the other code paths of get_lonlats on small areas and stacks with gaps: dask chunks (int, pair, explicit "
@@ -409,7 +426,7 @@ def run(ctx):
     ctx.exhaustive = True
     gcases, mal = gen_getitem(ctx)
     scases = gen_stack(ctx)
-    spl = gen_split(ctx)
+    spl = gen_split(ctx) + gen_split_chain(ctx)
     ccases = gen_concat(ctx)
     swc, swconc = gen_swath(ctx)
     apaths, spaths = gen_paths(ctx)
@@ -523,30 +540,41 @@ def run(ctx):
     L = []
     for c, o in zip(spl, obs["split"]):
         area, k = c["area"], c["k"]
-        ctx.case(("sp", repr(area), k), nontrivial=True, sample=samp({"split": {"shape": [area["h"], area["w"]], "extent": area["ext"], "row": k},
+        route = c.get("route")
+        ctx.case(("sp", repr(area), k, repr(c.get("window")), route), nontrivial=True, sample=samp({"split": {"shape": [area["h"], area["w"]], "extent": area["ext"], "row": k},
                                                                 "impl_tb": o.get("tb")}))
-        ctx.count("split")
+        ctx.count("split" if route is None else "split_route_" + route)
         rep = {"oracle": "split", "area": area, "k": k}
+        if route is not None:
+            rep.update(window=c["window"], route=route)
         if "error" in o:
             ctx.add_failure("C10.split_concat.error", "split of %s at row %d raises %s" % (area, k, o["error"]), rep)
             continue
-        ext = area["ext"]
+        # the area the parts were cut from: the parent itself, or the window parent[w0:w1] (as observed)
+        ext, shape = o["root"]["ext"], o["root"]["shape"]
+        chain = route in ("chain_bottom", "chain_top")
+        how = "" if route is None else " (window rows %s of the parent, parts cut along route %s%s)" % (
+            c["window"], route, {"chain_bottom": ": top = parent[w0:k], bottom = parent[w0:w1][k-w0:]",
+                                 "chain_top": ": top = parent[w0:w1][:k-w0], bottom = parent[k:w1]"}.get(route, ""))
         tol = [1e-9 * max(abs(ext[0]), abs(ext[2]), abs(ext[2] - ext[0])), 1e-9 * max(abs(ext[1]), abs(ext[3]), abs(ext[3] - ext[1]))]
         for name in ("tb", "bt"):
             m = o[name]
-            what = "area %s %s split at row %d, concatenate_area_defs(%s)" % ((area["h"], area["w"]), ext, k,
-                                                                              "top, bottom" if name == "tb" else "bottom, top")
+            what = "area %s %s split at row %d%s, concatenate_area_defs(%s)" % ((area["h"], area["w"]), area["ext"], k, how,
+                                                                                "top, bottom" if name == "tb" else "bottom, top")
             if "area" not in m:
-                ctx.add_failure("C10.split_concat.incompatible", what + " raises IncompatibleAreas", rep)
+                ctx.add_failure("C10.split_concat.chain_parts" if chain else "C10.split_concat.incompatible",
+                                what + " raises IncompatibleAreas (shared edge: %r vs %r)" % (o["top"]["ext"][1], o["bottom"]["ext"][3]), rep)
                 continue
-            ok = (m["area"]["shape"] == [area["h"], area["w"]] and m["eq"] and m["eq_rev"] and
+            ok = (m["area"]["shape"] == shape and m["eq"] and m["eq_rev"] and
                   all(abs(x - y) <= tol[i % 2] for i, (x, y) in enumerate(zip(m["area"]["ext"], ext))))
             if not ok:
-                ctx.add_failure("C10.split_concat.extent", what + " gives %s (== original: %s)" % (m["area"], m["eq"]), rep)
+                ctx.add_failure("C10.split_concat.chain_parts" if chain else "C10.split_concat.extent",
+                                what + " gives %s (== original: %s)" % (m["area"], m["eq"]), rep)
         s = o["stack"]
-        if not (s["ndefs"] == 1 and s["squeezed_is_area"] and s["eq"] and s["area"]["shape"] == [area["h"], area["w"]]
-                and s["height"] == area["h"] and s["width"] == area["w"]):
-            ctx.add_failure("C10.stack.merge", "StackedAreaDefinition(top, bottom).squeeze() of %s split at row %d is %s" % (area, k, s), rep)
+        if not (s["ndefs"] == 1 and s["squeezed_is_area"] and s["eq"] and s["area"]["shape"] == shape
+                and s["height"] == shape[0] and s["width"] == shape[1]):
+            ctx.add_failure("C10.stack.merge_chain_parts" if chain else "C10.stack.merge",
+                            "StackedAreaDefinition(top, bottom).squeeze() of %s split at row %d%s is %s" % (area, k, how, s), rep)
         top, bottom = o["top"], o["bottom"]
         exp = "(Some %s)" % fobs(o["tb"]["area"], area["crs"]) if "area" in o["tb"] else "None"
         L.append("(%s, %s, %s)" % (fobs(dict(top, off=[0, 0]), area["crs"]), fobs(dict(bottom, off=[0, 0]), area["crs"]), exp))
@@ -826,7 +854,8 @@ def replay(ctx, data):
               "mode": case.get("mode", 9)}
         sub.check({"stack": [sc]}, None, "stack", sc)
     elif kind == "split":
-        sub.check({"split": [{"area": case["area"], "k": case["k"]}]}, None, "split", {"area": case["area"], "k": case["k"]})
+        sc = {k_: case[k_] for k_ in ("area", "k", "window", "route") if k_ in case}
+        sub.check({"split": [sc]}, None, "split", sc)
     elif kind == "concat":
         sub.check({"concat": [{"a": case["a"], "b": case["b"], "mode": 0}]}, None, "concat", {"a": case["a"], "b": case["b"], "mode": 0})
     elif kind == "swath":
@@ -845,12 +874,13 @@ class Replayer:
         self.ctx = ctx
 
     def check(self, payload, gen, which, single=None):
-        global gen_getitem, gen_stack, gen_split, gen_concat, gen_swath, gen_paths
-        saved = (gen_getitem, gen_stack, gen_split, gen_concat, gen_swath, gen_paths)
+        global gen_getitem, gen_stack, gen_split, gen_concat, gen_swath, gen_paths, gen_split_chain
+        saved = (gen_getitem, gen_stack, gen_split, gen_concat, gen_swath, gen_paths, gen_split_chain)
         try:
             gen_getitem = (lambda ctx: gen()) if which == "getitem" else (lambda ctx: ([], []))
             gen_stack = (lambda ctx: [single]) if which == "stack" else (lambda ctx: [])
             gen_split = (lambda ctx: [single]) if which == "split" else (lambda ctx: [])
+            gen_split_chain = lambda ctx: []
             gen_concat = (lambda ctx: [single]) if which == "concat" else (lambda ctx: [])
             gen_swath = (lambda ctx: ([single], [])) if which == "swath" else \
                 ((lambda ctx: ([], [single])) if which == "swath_concat" else (lambda ctx: ([], [])))
@@ -858,4 +888,4 @@ class Replayer:
                 ((lambda ctx: ([], [single])) if which == "stack_paths" else (lambda ctx: ([], [])))
             run(self.ctx)
         finally:
-            gen_getitem, gen_stack, gen_split, gen_concat, gen_swath, gen_paths = saved
+            gen_getitem, gen_stack, gen_split, gen_concat, gen_swath, gen_paths, gen_split_chain = saved
